@@ -458,6 +458,7 @@ func c08(r *Report) {
 				}
 			}
 		}
+		r.dynamicCallerRule(enc, "header blocks encoded from an unexpected place")
 		for _, c := range w.staticCallers(enc) {
 			f := c.Parent()
 			ok := f.Name() == "send" || f.Name() == "emitEligibleFrames"
